@@ -41,7 +41,7 @@ Definition decl (op : Z) (ps : list Z) : option (Z * tree) :=
   | 52 => Some (api_cnv_prepare_self_tmp_bytes fam n (q 2%nat) (q 3%nat), t_cnv_prepare_self fam n (q 2%nat) (q 3%nat))
   | 53 => Some (api_cnv_apply_dft_tmp_bytes fam n (q 2%nat) (q 3%nat) (q 4%nat) (q 5%nat), t_cnv_apply_dft fam (q 3%nat) (q 4%nat) (q 5%nat))
   | 54 => Some (api_cnv_by_const_apply_tmp_bytes fam n (q 2%nat) (q 3%nat) (q 4%nat) (q 5%nat), t_cnv_by_const_apply fam (q 3%nat) (q 4%nat) (q 5%nat))
-  | 55 => Some (api_cnv_pairwise_apply_dft_tmp_bytes fam n (q 2%nat) (q 3%nat) (q 4%nat) (q 5%nat), t_cnv_pairwise_apply_dft fam (q 3%nat) (q 4%nat) (q 5%nat))
+  | 55 => Some (api_cnv_pairwise_apply_dft_tmp_bytes fam n (q 3%nat) (q 2%nat) (q 4%nat) (q 5%nat), t_cnv_pairwise_apply_dft fam (q 3%nat) (q 4%nat) (q 5%nat))
   (* Scratch::split_mut(threads, len) on threads * len bytes: ps = [be; n; threads; len] *)
   | 60 => Some (q 2%nat * q 3%nat, split_mut (q 2%nat) (q 3%nat))
   | 101 => let lwe := mkInfos (q 2%nat) (q 3%nat) (div_ceil (q 4%nat) (q 3%nat)) 0 0 0 1 in
@@ -67,9 +67,9 @@ Definition decl (op : Z) (ps : list Z) : option (Z * tree) :=
   | 111 => let r := inf ps 2 n in let a := inf ps 8 n in let k := inf ps 14 n in
            Some (glwe_automorphism_tmp_bytes fam n r a k, tree_glwe_automorphism_add fam n r a k)
   | 112 => let r := inf ps 2 n in let a := inf ps 8 n in let k := inf ps 14 n in
-           if (i_base2k r =? i_base2k k) && (i_base2k a =? i_base2k k) then
-             Some (glwe_trace_tmp_bytes fam n r a k, tree_glwe_trace_same fam n r a k (Z.log2 n - q 20%nat))
-           else None
+           Some (glwe_trace_tmp_bytes fam n r a k, tree_glwe_trace fam n r a k (Z.log2 n - q 20%nat))
+  | 119 => let r := inf ps 2 n in let k := inf ps 14 n in
+           Some (glwe_trace_tmp_bytes fam n r r k, tree_glwe_trace_assign fam n r k (Z.log2 n - q 20%nat))
   | 113 => Some (glwe_normalize_tmp_bytes fam n, tree_glwe_normalize fam n (inf ps 2 n))
   | 114 => Some (glwe_shift_tmp_bytes fam n, tree_glwe_rsh fam n (inf ps 2 n))
   | 117 => Some (glwe_shift_tmp_bytes fam n, tree_glwe_lsh fam n (inf ps 2 n))
